@@ -2164,6 +2164,9 @@ func (self *TextServerProtocol) ReadCommand() (protocol.CommandDecode, error) {
 	}
 
 	textServerCommand := command.(*protocol.TextRequestCommand)
+	if len(textServerCommand.Args) == 0 {
+		return nil, errors.New("unknown command")
+	}
 	commandName := strings.ToUpper(textServerCommand.Args[0])
 	if commandName == "LOCK" || commandName == "UNLOCK" {
 		if len(textServerCommand.Args) < 5 {
